@@ -166,6 +166,9 @@ def copyFileFrom (base layer : MemFs) (name : Str) (bo : Nat) (startPos : Nat) :
   let k := keyOfStr name
   let (layer, lf) := layer.create k
   let src := base.obj bo
+  -- mem.File.Read with the offset beyond the end (O_APPEND then O_TRUNC in the caller's flags):
+  -- io.ErrUnexpectedEOF; io.Copy fails, the fresh layer file is removed again
+  if !src.dir && startPos > src.data.length then ((layer.remove k).1, some .eof) else
   -- io.Copy reads from the handle's position on; a directory handle yields no bytes
   let copied : Bytes := if src.dir then [] else src.data.drop startPos
   let layer := layer.setObj lf ((layer.obj lf).withIO copied (copied ≠ []) layer.now)
